@@ -26,6 +26,7 @@ var checks = map[string]func(tier, replay string){
 	"C08": c08.Main,
 	"C11": c11.Main,
 	"C10": c10.Main,
+	"C18": c10.Main18,
 	"C15": c15.Main,
 	"C16": c16.Main,
 	"C17": c17.Main,
